@@ -315,7 +315,10 @@ class Check:
         cov["transitions"] = max(cov["transitions"], 1)
         ev = {"property_id": self.pid, "tier": self.tier, "seed": seed(), "level": self.level, "coverage": cov,
               "assumptions": self.assumptions, "wall_s": round(time.time() - self.t0, 2), "violations": len(self.violations)}
-        json.dump(ev, open(os.path.join(EVID, "%s.json" % self.pid), "w"), indent=1, default=str)
+        # evidence/ holds one file per listed property; the component specs outside the property list (pid X...) keep theirs apart
+        edir = EVID if not self.pid.startswith("X") else os.path.join(VERIF, "extras", "evidence")
+        os.makedirs(edir, exist_ok=True)
+        json.dump(ev, open(os.path.join(edir, "%s.json" % self.pid), "w"), indent=1, default=str)
         for path, what in self.violations[:20]:
             print("VIOLATION property=%s replay=%s" % (self.pid, path), flush=True)
             log("  " + what)
